@@ -333,7 +333,9 @@ def native_sampling(po, shape, seed, n):
     ran = rej = 0
     fails = []
     excs = []
-    for i in range(n):
+    for i in range(n * 6):
+        if ran >= n:
+            break
         results, rejected, exc, S = run_native(po, shape, None, rng)
         if rejected:
             rej += 1
@@ -445,6 +447,19 @@ def summarise(prop, tier, seed, results, wall, only=None):
         native_ran += nat.get("ran", 0)
         for nf in nat.get("clause_failures", []):
             native_fail.append({"po": r["po"], **nf})
+            # a clause that is false on the real code for an input inside the precondition is a violation in its own right
+            # (e.g. a discrete outcome flipped by Decimal rounding, invisible to the proof over the reals)
+            if (prop, r["po"], nf["clause"]) in kf or any(v[2] == r["po"] and v[3] == nf["clause"] for v in violations):
+                continue
+            d = os.path.join(OUT, "replays", prop)
+            os.makedirs(d, exist_ok=True)
+            path = os.path.join(d, _san(f"{r['po']}__{nf['clause']}__native-sample") + ".json")
+            json.dump({"property": prop, "po": r["po"], "shape": r["shape"], "failed_obligation": f"{r['po']}/{nf['clause']}",
+                       "kind": "native-sample", "inputs": nf["inputs"], "model": {}, "reproduced_natively": True,
+                       "replay_info": {"detail": nf.get("detail", "")},
+                       "verifier_output": "contract clause evaluated natively on the real code is False for this input (seeded sample inside the precondition)",
+                       "seed": seed, "tier": tier}, open(path, "w"), indent=1, default=str)
+            violations.append((path, True, r["po"], nf["clause"]))
         per_po.append({"po": r["po"], "shape": r["shape"], "strength": r["strength"], "paths": r["paths"],
                        "infeasible_paths": r["infeasible"], "obligations": len(r["clauses"]),
                        "discharged": sum(1 for c in r["clauses"].values() if c["sat"] == 0 and c["unknown"] == 0),
